@@ -1,4 +1,130 @@
-import FiddleModel.Model.ArgStore
+/-
+C20 — meaning-preserving transformations preserve what is built.
+
+Modelled and proved here: `materialize_defaults` on one Buildable (`Cfg.materializeDefaults`,
+the loop of `materialize.py` over the ArgStore model, which the correspondence checks of C03,
+C07, C14 and C16 run against the real function on every generated edit history). For every
+signature and every store, when it succeeds:
+  * nothing configured is touched, tags are untouched;
+  * what is added is, for parameters that had no value, their own default under their own key
+    — so every parameter receives exactly the value it would have received before;
+  * afterwards every named parameter that has a default is explicitly set;
+  * a second run adds nothing for named parameters (idempotence; for positional-only defaults
+    idempotence additionally depends on the "prefix is set" rule and is checked by the
+    correspondence run only: `C20_idempotent_named_partial`).
+The other transformations of the property (with_defaults_trimmed, unintern_tuples_of_literals,
+replace_unconfigured_partials_with_callables, clear_argument_history, materialize_tags,
+auto_config.inline, convert_dataclasses_to_configs) have no Lean model; for them the check
+compares builds of the real code before and after (see DESIGN.md) and this file proves nothing.
+-/
+import FiddleModel.Lemmas.Materialize
+
 namespace Fiddle
-theorem C20_placeholder : True := trivial
+
+theorem C20_materialize_result (s : Sig) (c c' : Cfg) (h : c.materializeDefaults s = .ok c') :
+    MatResult s c c' :=
+  (materializeLoop_result s s [] 0 true c c' rfl rfl h).1
+
+/-- Tags are not touched. -/
+theorem C20_materialize_keeps_tags (s : Sig) (c c' : Cfg) (h : c.materializeDefaults s = .ok c') :
+    c'.tags = c.tags := (C20_materialize_result s c c' h).tags
+
+/-- Every configured argument keeps its value. -/
+theorem C20_materialize_keeps_configured (s : Sig) (c c' : Cfg)
+    (h : c.materializeDefaults s = .ok c') (k : Key) (v : Val) (hk : c.args.get? k = some v) :
+    c'.args.get? k = some v := by
+  obtain ⟨added, e, _⟩ := (C20_materialize_result s c c' h).ext
+  rw [e, Dict.get?_append, hk]; rfl
+
+/-- Each key is either unchanged, or was unset and now holds the default of the parameter it
+    belongs to. -/
+theorem C20_materialize_only_own_defaults (s : Sig) (c c' : Cfg)
+    (h : c.materializeDefaults s = .ok c') (k : Key) :
+    c'.args.get? k = c.args.get? k ∨
+      (c.args.get? k = none ∧ ∃ v, c'.args.get? k = some v ∧ OwnDefault s (k, v)) := by
+  obtain ⟨added, e, pa⟩ := (C20_materialize_result s c c' h).ext
+  rw [e, Dict.get?_append]
+  cases hd : c.args.get? k with
+  | some v => left; rfl
+  | none =>
+    cases ha : added.get? k with
+    | none => left; rfl
+    | some v =>
+      right
+      exact ⟨rfl, v, rfl, (pa (k, v) (Dict.get?_mem added k v ha)).2⟩
+
+/-- The key under which parameter `p` of `s` is stored. -/
+def OwnKey (s : Sig) (p : Param) (key : Key) : Prop :=
+  (p.kind ≠ .po ∧ key = .name p.name) ∨ (p.kind = .po ∧ ∃ i : Nat, s[i]? = some p ∧ key = .idx i)
+
+/-- **What is built is preserved**: every parameter receives the same value after the
+    transformation as before — its configured value, else its default. -/
+theorem C20_materialize_same_values (s : Sig) (c c' : Cfg) (h : c.materializeDefaults s = .ok c')
+    (p : Param) (key : Key) (hown : OwnKey s p key) :
+    (c'.args.get? key).getD (Sig.dfltVal p) = (c.args.get? key).getD (Sig.dfltVal p) := by
+  rcases C20_materialize_only_own_defaults s c c' h key with e | ⟨hn, v, hv, q, _, _, hqv, hq⟩
+  · rw [e]
+  · rw [hn, hv]
+    simp only [Option.getD_some, Option.getD_none]
+    simp only at hqv hq
+    rw [hqv]
+    rcases hown with ⟨_, rfl⟩ | ⟨_, i, hi, rfl⟩
+    · rcases hq with ⟨_, e⟩ | ⟨_, j, _, e⟩
+      · simp only [Key.name.injEq] at e
+        simp [Sig.dfltVal, e]
+      · cases e
+    · rcases hq with ⟨_, e⟩ | ⟨_, j, hj, e⟩
+      · cases e
+      · simp only [Key.idx.injEq] at e
+        have : j = i := by omega
+        subst this
+        rw [hi] at hj; cases hj; rfl
+
+/-- Variadic arguments (`*args`, `**kwargs` entries) and every key that is not a defaulted
+    parameter's own key are exactly as before. -/
+theorem C20_materialize_frame (s : Sig) (c c' : Cfg) (h : c.materializeDefaults s = .ok c')
+    (k : Key) (hk : ∀ v, ¬ OwnDefault s (k, v)) : c'.args.get? k = c.args.get? k := by
+  rcases C20_materialize_only_own_defaults s c c' h k with e | ⟨_, v, _, ho⟩
+  · exact e
+  · exact absurd ho (hk v)
+
+/-- Afterwards every named parameter that has a default is explicitly set. -/
+theorem C20_materialize_all_named_set (s : Sig) (c c' : Cfg)
+    (h : c.materializeDefaults s = .ok c') (p : Param) (hp : p ∈ s) (hd : p.dflt = true)
+    (hk : p.kind ≠ .po) : c'.args.contains (.name p.name) = true :=
+  (materializeLoop_result s s [] 0 true c c' rfl rfl h).2 p hp hd hk
+
+/-- Idempotence, for signatures whose positional-only parameters have no defaults: a second
+    run changes neither arguments nor tags. -/
+theorem C20_idempotent_named_partial (s : Sig) (c c' c'' : Cfg)
+    (hnopo : ∀ p ∈ s, p.kind = .po → p.dflt = false)
+    (h1 : c.materializeDefaults s = .ok c') (h2 : c'.materializeDefaults s = .ok c'') :
+    c''.args = c'.args ∧ c''.tags = c'.tags := by
+  have r2 := C20_materialize_result s c' c'' h2
+  obtain ⟨added, e, pa⟩ := r2.ext
+  refine ⟨?_, r2.tags⟩
+  have : added = [] := by
+    cases added with
+    | nil => rfl
+    | cons kv rest =>
+      exfalso
+      obtain ⟨habs, q, hq, hqd, _, hkey⟩ := pa kv (by simp)
+      rcases hkey with ⟨hk, e'⟩ | ⟨hk, _⟩
+      · have := C20_materialize_all_named_set s c c' h1 q hq hqd hk
+        rw [e'] at habs
+        rw [habs] at this; cases this
+      · have := hnopo q hq hk
+        rw [this] at hqd; cases hqd
+  rw [e, this]; simp
+
+/-! ## Non-vacuity -/
+
+private def sg : Sig := [⟨"a", .pk, false⟩, ⟨"b", .pk, true⟩, ⟨"c", .ko, true⟩]
+private def c0 : Cfg := { args := [(.name "a", .v 1), (.name "c", .v 2)], tags := [], hist := [], ctr := 0, tracking := true }
+
+example : ∃ c', c0.materializeDefaults sg = .ok c' ∧
+    c'.args = [(.name "a", .v 1), (.name "c", .v 2), (.name "b", .d "b")] := by
+  refine ⟨_, rfl, ?_⟩
+  decide
+
 end Fiddle
